@@ -31,6 +31,7 @@ class Ans:
         self.F = None
         self.ED = None
         self.E = None; self.CB = []; self.RO = None; self.LK = None; self.PM = None
+        self.PS = None       # 0: a source-table entry changed its pointer between two fetches
         self.GI = None       # 1: the source table was empty before any submission
         self.HL = None       # library-owned heap blocks of the decoder session: (setup, [after each submission call], after finish or None, after release)
         if self.crash:
@@ -38,6 +39,8 @@ class Ans:
         for tok in line.split()[1:]:
             if tok.startswith("PM"):
                 self.PM = tok[2:]
+            elif tok.startswith("PS"):
+                self.PS = int(tok[2:])
             elif tok.startswith("P"):
                 self.P = int(tok[1:])
             elif tok.startswith("GI"):
